@@ -10,4 +10,6 @@ Extraction "model.ml"
   arr_subarray arr_copy_shallow arr_copy_deep arr_filter arr_map_order arr_reduce arr_sort a_size
   it_init it_next it_remove it_add it_replace it_idx zip_next zip_remove zip_add zip_replace
   stack_new stack_destroy stack_push stack_pop stack_peek stack_filter with_arr
-  arr_step spec_step.
+  arr_step spec_step
+  ARRAY_DEFAULT_CAPACITY ARRAY_DEFAULT_EXPANSION_FACTOR_num ARRAY_DEFAULT_EXPANSION_FACTOR_den
+  SIZED_DEFAULT_CAPACITY SIZED_DEFAULT_EXPANSION_FACTOR_num SIZED_DEFAULT_EXPANSION_FACTOR_den.
